@@ -390,6 +390,10 @@ def resolve(st: State, op):
                           {'t': 'int', 'v': [1, 1, 10, 100][(r[6] + j) % 4]}])
         act = {'a': 'conv_update', 'conv': cn, 'validity': validity,
                'specs': specs, 'expect': 'accept'}
+        if (r[2] + r[6]) % 3 == 0:
+            # the update is made inside `with conv:`; what it raises leaves
+            # the block
+            act['in_block'] = True
         # the rate specs may come from a named one-shot iterator that the
         # caller uses again for its next update (after a rejected one)
         if r[10] % 4 == 0:
@@ -718,7 +722,11 @@ def perform(env: Env16, act):
                 env.iters[act['iter']] = iter(specs)
             container = env.iters[act['iter']]
         try:
-            conv.update(validity, container)
+            if act.get('in_block'):
+                with conv:
+                    conv.update(validity, container)
+            else:
+                conv.update(validity, container)
         except Exception as e:      # noqa
             return 'exc', type(e).__name__
         return 'ok', {}
